@@ -29,7 +29,7 @@ ASSUMPTIONS = [
     "a partial frame cut by an injected write error is attributed by the reference encoder (ref/encode.py)",
     "the +/-1 step and control-method flip have no public entry point; they are exercised at socket level with the non-idempotent policy and through the API's private command helper when it exists",
 ]
-PROBES = ["c02.fault_hit_pending", "c02.retry_seen", "c02.expired_after_fault", "c02.reconnect_at_exact_expiry", "c02.single_fault_class",
+PROBES = ["c02.close_window_class", "c02.write_into_closing_transport", "c02.fault_hit_pending", "c02.retry_seen", "c02.expired_after_fault", "c02.reconnect_at_exact_expiry", "c02.single_fault_class",
           "c02.api_class", "c02.toggle_under_fault", "c02.helper_step", "c02.budget_exhausted"]
 EXHAUSTIVE = False
 
@@ -38,9 +38,31 @@ def budget(tier: str) -> int:
     return 16000 if tier == "quick" else 1_500_000
 
 
+def gen_close_window(rng) -> dict:
+    """The peer closes (or resets); a command is submitted in the very instant the client reacts - while the old transport is
+    being closed and the socket still calls itself connected.  Its write meets a closing transport: that is one transient
+    write failure from the client's point of view, and an idempotent command must survive it."""
+    gen = rng.choice([4, 5])
+    lat = rng.choice([0.0, G.TICK, 2.0**-7])
+    knobs = {"latency": lat, "first_packet_id": rng.choice([0, 254]),
+             "fates": [{"kind": "accept", "latency": 0.0}, {"kind": "accept", "latency": rng.choice([0.0, 0.125, 1.0])}]}
+    t_f = G.dyadic(rng, 1.0, 3.0)
+    msgs = sendq.distinct_messages(rng, gen, 3)
+    tl = [{"at": 0.0, "op": "user.open"}, {"at": t_f, "op": rng.choice(["net.fin", "net.fin", "net.rst"])}]
+    n = rng.choice([1, 1, 2])
+    for i in range(n):
+        tl.append({"at": t_f + lat, "op": "user.send", "msg": msgs[i], "policy": rng.choice(["idem", "idem", {"retries": 1, "lifetime": 30.0}]), "yields": rng.choice([0, 1, 2, 3, 4])})
+    if rng.random() < 0.4:
+        tl.append({"at": t_f + lat + rng.choice([G.EPS, 0.5]), "op": "user.send", "msg": msgs[2], "policy": "idem"})
+    tl.sort(key=lambda s: s["at"])
+    return {"gen": gen, "mode": "socket", "knobs": knobs, "timeline": tl, "end": t_f + 8.0, "class": "close_window", "t_f": t_f + lat}
+
+
 def generate(rng, index: int, tier: str) -> dict:
     if rng.random() < 0.25:
         return gen_api(rng)
+    if rng.random() < 0.12:
+        return gen_close_window(rng)
     gen = rng.choice([4, 5])
     knobs = {"latency": rng.choice([0.0, G.TICK, 2.0**-7]), "first_packet_id": rng.choice([0, 254])}
     t_open = 0.0
@@ -254,6 +276,22 @@ def execute(sc: dict) -> dict:
                     t_reconn = min((l.t_accept for l in w.net.links if l.id > flink and l.t_accept is not None), default=None)
                     if t_reconn is not None and t_reconn < victim["t_accept"] + victim["lifetime"] - 0.1:
                         V.append(viol("C02.lost_after_single_fault", {"victim": victim["id"], "msg": victim["desc"], "policy": victim["policy"]}))
+    if sc.get("class") == "close_window":
+        probes["c02.close_window_class"] = 1
+        t_f = sc["t_f"]
+        later_links = [l for l in w.net.links if l.t_accept is not None and l.t_accept >= t_f]
+        for s in h.subs:
+            if s["exc"] is not None or s["t_accept"] is None or s["retries"] < 1:
+                continue
+            if any(p["t"] == t_f for p in s["partial"]) or any(e[2] == "tx.dropped" and e[1] == t_f for e in w.trace.events):
+                probes["c02.write_into_closing_transport"] = 1
+            if later_links and later_links[0].t_accept < s["t_accept"] + s["lifetime"] - 0.1:
+                # handed to a live transport at least once (a frame that a healthy transport accepted and the network then
+                # lost is not the client's to repair); writes swallowed by a closing transport do not count
+                if not s["tx"]:
+                    V.append(viol("C02.lost_in_close_window", {"sub": s["id"], "msg": s["desc"], "policy": s["policy"], "t_accept": s["t_accept"], "peer_closed_at": t_f,
+                                                               "next_connection": later_links[0].t_accept}))
+                    break
     if h.unattributed:
         V.append(viol("C02.not_submitted", {"frame": h.unattributed[0]["raw"].hex()}))
     if w.verdict == "stepcap":
